@@ -490,6 +490,68 @@ def check_accessors(ctx, repo):
             else:
                 ctx.violation(c, f"grade{grades} of a multivector holding all 8 blades in {label} {dkeys} gives {got}, expected {want}: "
                                  f"coefficients are taken by position in another order than they are stored", fn)
+    # the coefficients held in ONE ndarray (two elements per blade), blades stored in a non-canonical order: every accessor must
+    # pair each blade with its own row (a block slice taken in storage order, a scatter by position ... do not), and must not
+    # copy the user's coefficients into an array of a fixed element type (complex, Fraction / sympy, integer coefficients)
+    from ..symenv import symarray, symarray_values, numpy_alloc_standin
+
+    def nd_mv():
+        return mv_obj(rep_algebra(3), (4, 2, 1, 7), symarray("W", (4, 2)))
+    rows = {4: ["W[0,0]", "W[0,1]"], 2: ["W[1,0]", "W[1,1]"], 1: ["W[2,0]", "W[2,1]"], 7: ["W[3,0]", "W[3,1]"]}
+
+    def nd_pairs(o):
+        if not (isinstance(o, Obj) and o.kind == "MultiVector"):
+            return None
+        keys, vals = o.attrs.get("_keys"), o.attrs.get("_values")
+        try:
+            vals = symarray_values(vals)
+            keys = list(keys)
+        except Exception:
+            return None
+        if not isinstance(vals, list) or len(keys) != len(vals):
+            return None
+        return dict(zip(keys, vals))
+
+    def nd_run(method, args=(), kwargs=None):
+        it = make_interp(repo)
+        it.standins["numpy"] = numpy_alloc_standin()
+        q = f"{M}.{method}"
+        fn = ctx.func(q)
+        try:
+            return fn, it.run(q, [nd_mv()] + list(args), kwargs or {})
+        except NoValue as exc:
+            return fn, ("gap", str(exc))
+    for grades, want in (((1,), {1: rows[1], 2: rows[2], 4: rows[4]}), ((1, 3), {1: rows[1], 2: rows[2], 4: rows[4], 7: rows[7]}), ((3,), {7: rows[7]})):
+        fn, out = nd_run("grade", list(grades))
+        c = f"{M}.grade#one ndarray, keys (4, 2, 1, 7):{grades}"
+        got = nd_pairs(out[1]) if out[0] == "return" else None
+        if out[0] == "raise":
+            ctx.violation(c, f"grade{grades} of an ndarray-backed multivector raises {out[1]}", fn)
+        elif got is None:
+            ctx.unknown(c, f"grade gives {out!r}", fn)
+        elif got == want:
+            ctx.ok(c, fn)
+        else:
+            ctx.violation(c, f"grade{grades} of a multivector whose coefficients are the rows of one array, blades stored as (4, 2, 1, 7), gives "
+                             f"{got}, expected {want}: rows are attached to other blades than they are stored for", fn)
+    for kw, order in (({}, [0, 1, 2, 4, 3, 5, 6, 7]), ({"canonical": False}, list(range(8)))):
+        fn, out = nd_run("asfullmv", [], kw)
+        c = f"{M}.asfullmv#one ndarray, keys (4, 2, 1, 7):{'canonical' if not kw else 'binary'}"
+        got = nd_pairs(out[1]) if out[0] == "return" else None
+        want = {k: rows.get(k, [0, 0]) for k in range(8)}
+        vals = out[1].attrs.get("_values") if out[0] == "return" and isinstance(out[1], Obj) else None
+        if out[0] == "raise":
+            ctx.violation(c, f"asfullmv({kw}) of an ndarray-backed multivector raises {out[1]}", fn)
+        elif isinstance(vals, Obj) and vals.attrs.get("narrowed"):
+            ctx.violation(c, f"asfullmv({kw}) copies the coefficient array into an array allocated with {vals.attrs.get('allocated')}: complex coefficients lose "
+                             f"their imaginary part, object coefficients (Fraction, sympy) are cast or refused, whatever the user's array held", fn)
+        elif got is None:
+            ctx.unknown(c, f"asfullmv gives {out!r}", fn)
+        elif {k: (v if isinstance(v, list) else [v, v]) for k, v in got.items()} == want and list(out[1].attrs["_keys"]) == order:
+            ctx.ok(c, fn)
+        else:
+            ctx.violation(c, f"asfullmv({kw}) of an ndarray-backed multivector storing (4, 2, 1, 7) gives keys {list(out[1].attrs['_keys'])} / {got}, "
+                             f"expected keys {order} / {want}", fn)
     # asfullmv
     full = {k: stored.get(k, 0) for k in range(8)}
     fn, out = run("asfullmv")
